@@ -1265,7 +1265,14 @@ class Index:
             entries, version, extensions = read_index_dict_with_version(sha1_reader)
             self._version = version
             self._extensions = extensions
-            self.update(entries)
+            # Keep every path exactly as it is in the file. Going through
+            # __setitem__ would redirect the second of two paths with the
+            # same normalized form (README, readme) to the key of the first.
+            for name, entry in entries.items():
+                self._byname[name] = entry
+                if self._normalized is not None:
+                    assert self._path_normalizer is not None
+                    self._normalized.setdefault(self._path_normalizer(name), name)
             # Extensions have already been read by read_index_dict_with_version
             sha1_reader.check_sha(allow_empty=True)
         finally:
